@@ -261,3 +261,11 @@ def floors(ctx) -> list[str]:
 
 
 del itertools
+
+TECHNIQUE = "property-based differential testing (Hypothesis-generated models vs independent recursive reference evaluator) + cross-entry-point metamorphic agreement"
+LEVEL_TEXT = (
+    "Generated-input search: every entry point of the model agrees with an independent reference evaluator on "
+    "hundreds (quick) / tens of thousands (thorough) of structurally distinct generated models and states. "
+    "Exploration is the right level: the quantifier is over all models x states, which cannot be enumerated."
+)
+LEVEL_NOTE = "Trusted: the reference evaluator (vlib/spec.py), Hypothesis, float arithmetic of CPython; generated functions are polynomials/rationals only."
